@@ -230,6 +230,13 @@ def persist_roles():
     inner = source.assigned_names(forloop.body) if forloop is not None else set()
     both = sorted(top & inner)      # advanced once per attempt at the top of the loop, reset while events are passed on
     counter = both[0] if len(both) == 1 else None
+    if counter is None:
+        # fallback: the exponent of the power of two in the back-off formula
+        for n in ast.walk(outer):
+            if isinstance(n, ast.BinOp) and isinstance(n.op, ast.Pow) and isinstance(n.left, ast.Constant) and n.left.value == 2 \
+                    and isinstance(n.right, ast.Name):
+                counter = n.right.id
+                break
     ev = next((n.target.id for n in outer.body if isinstance(n, ast.For) and isinstance(n.target, ast.Name)), None)
 
     def draws(n):
